@@ -383,7 +383,7 @@ class Bits:
             if k == "use":
                 op = Operand(rv["a"])
                 val = self.val_op(st, op)
-                if op.place is not None and s.lhs.is_local and op.kind == "copy":
+                if op.place is not None and s.lhs.is_local and op.kind in ("copy", "move"):
                     fact = ("alias", ("alias", self._resolve_alias(st, _pk(op.place))))
                 if op.place is not None and op.place.is_local:
                     for tag in ("cond", "and"):
